@@ -138,3 +138,32 @@ func VerifC03_AlreadyStopping() {
 	verifQuiesce()
 	verifReach("end")
 }
+
+// C03 (daemon): a project shutdown also ends a launched daemon - whose run loop waits for the
+// notification that the daemon is gone - whether its shutdown command succeeds or fails;
+// afterwards Run() returns.
+func VerifC03_Daemon() {
+	w := vInit()
+	cmdOutcome := []string{"exit 0", "exit 1", "sleep 30"}[verifChooseK("shutdown.command", 3)]
+	verifShape("shutdown.command:" + cmdOutcome)
+	d := vConf("d", nil)
+	d.IsDaemon = true
+	d.ShutDownParams = types.ShutDownParams{ShutDownCommand: cmdOutcome, ShutDownTimeout: 2}
+	w.behav["d"] = &vBehav{codes: []int{0}} // the launcher exits 0: the daemon is launched
+	other := vConf("o", nil)
+	w.behav["o"] = &vBehav{untilStop: []bool{true}}
+	verifBind("github.com/f1bonacc1/process-compose/src/command.BuildCommandShellArgContext", vBuildShutCmd)
+	verifBind("(*github.com/f1bonacc1/process-compose/src/command.CmdWrapper).SetEnv", vShutCmdSetEnv)
+	verifBind("(*github.com/f1bonacc1/process-compose/src/command.CmdWrapper).SetDir", vShutCmdSetDir)
+	verifBind("(*github.com/f1bonacc1/process-compose/src/command.CmdWrapper).Run", vShutCmdRun)
+	r := vRunner(vProject(d, other), false)
+	runDone := make(chan error, 1)
+	go func() { runDone <- r.Run() }()
+	verifQuiesce()
+	st, _ := r.GetProcessState("d")
+	verifAssert("daemon.launched", st != nil && st.Status == types.ProcessStateLaunched)
+	_ = r.ShutDownProject()
+	verifAssert("nothing.alive.after.shutdown", vAliveTotal() == 0)
+	<-runDone // a hang here is the violation
+	verifReach("end")
+}
